@@ -38,5 +38,4 @@ func (m *Mutex) Unlock() {
 type (
 	Once      = sync.Once
 	WaitGroup = sync.WaitGroup
-	RWMutex   = sync.RWMutex
 )
